@@ -31,6 +31,8 @@ MC_BYTESCURSOR = dict(module="MC_BytesCursor", cfg="MC_BytesCursor.cfg", workers
 
 MC_IOADAPTERS = dict(module="MC_IoAdapters", cfg="MC_IoAdapters.cfg", workers=2)
 
+MC_DECODER_LONG = dict(module="MC_Decoder", cfg="MC_Decoder_long.cfg", workers=8, timeout=2400, tiers=["thorough"])
+
 PROPS = {
     "C20": dict(level="model_checking", mc=[MC_FORMAT], steps=[dict(kind="custom", fn="feature_builds")],
         rule="one deterministic corpus (the C01 values and the C03 byte strings of every type available in the configuration, fixed seed) through one build "
@@ -68,7 +70,7 @@ PROPS = {
             "non-trivial = at least one byte, distinct by (width, kind, bytes, value)"),
     "C01": dict(level="model_checking", mc=[MC_FORMAT], steps=[trace()]),
     "C02": dict(level="model_checking", mc=[MC_FORMAT], steps=[trace(1, 4)]),
-    "C03": dict(level="model_checking", mc=[MC_DECODER], steps=[trace(2, 16)]),
+    "C03": dict(level="model_checking", mc=[MC_DECODER, MC_DECODER_LONG, MC_COMPACT], steps=[trace(2, 16)]),
     "C08": dict(level="model_checking", mc=[MC_DECODER, MC_BYTESCURSOR, MC_IOADAPTERS], steps=[trace(1, 2)]),
     "C11": dict(level="model_checking", mc=[MC_DECODER], steps=[trace(1, 6), dict(kind="apalache", module="Ind_Depth")]),
     "C12": dict(level="model_checking", mc=[MC_DECODER], steps=[trace(1, 4), dict(kind="apalache", module="Ind_Mem")]),
